@@ -23,7 +23,9 @@ func TestReplay(t *testing.T) { pbt.Replay(t) }
 
 // ---- variants ------------------------------------------------------------------------------
 
-var variants = []string{"v12", "v12-psk", "v12-epsk", "v12-cbc", "v12-cid", "v12-resumed", "v13", "v13-nohv", "dual-12"}
+var variants = []string{"v12", "v12-psk", "v12-epsk", "v12-cbc", "v12-cid", "v12-cid8", "v12-cid20-ccm", "v12-resumed", "v13", "v13-nohv", "dual-12"}
+
+var variantCID = map[string]int{"v12-cid": 4, "v12-cid8": 8, "v12-cid20-ccm": 20}
 
 func epsFor(v string) (cl, sv scen.EP, resumed bool) {
 	cl = scen.EP{RootCA: 1, ServerName: scen.ServerName}
@@ -39,6 +41,11 @@ func epsFor(v string) (cl, sv scen.EP, resumed bool) {
 		cl.Suites, sv.Suites = []uint16{0xc00a}, []uint16{0xc00a}
 	case "v12-cid":
 		cl.CID, sv.CID = 4, 4
+	case "v12-cid8":
+		cl.CID, sv.CID = 8, 8
+	case "v12-cid20-ccm":
+		cl.CID, sv.CID = 20, 20
+		cl.Suites, sv.Suites = []uint16{0xc0ac}, []uint16{0xc0ac}
 	case "v12-resumed":
 		cl.Store, sv.Store = "cs", "ss"
 		resumed = true
@@ -61,7 +68,9 @@ func epsFor(v string) (cl, sv scen.EP, resumed bool) {
 
 // Hostile is one injected datagram, described so that it can be rebuilt on replay.
 type Hostile struct {
-	Kind string `json:"kind"` // record, hsfrag, mutate, random
+	Kind string `json:"kind"` // record, hsfrag, mutate, random, cidrec
+	// cidrec: a well-formed tls12_cid record (type 25) with CIDLen random ID bytes and BodyLen body bytes
+	CIDLen int `json:"cidlen,omitempty"`
 	// record / hsfrag
 	Type   int `json:"type,omitempty"`
 	Epoch  int `json:"epoch,omitempty"`
@@ -124,6 +133,22 @@ func (h *Hostile) build(genuine [][]byte, expectSeq int, recSeq uint64) []byte {
 		}
 
 		return legacyRecord(h.Type, h.Epoch, recSeq, body, h.DeclDl)
+	case "cidrec":
+		rnd := prng(h.Seed)
+		rec := []byte{25, 0xfe, 0xfd, byte(h.Epoch >> 8), byte(h.Epoch), byte(recSeq >> 40), byte(recSeq >> 32), byte(recSeq >> 24), byte(recSeq >> 16), byte(recSeq >> 8), byte(recSeq)}
+		for i := 0; i < h.CIDLen; i++ {
+			rec = append(rec, rnd())
+		}
+		n := h.BodyLen + h.DeclDl
+		if n < 0 {
+			n = 0
+		}
+		rec = append(rec, byte(n>>8), byte(n))
+		for i := 0; i < h.BodyLen; i++ {
+			rec = append(rec, rnd())
+		}
+
+		return rec
 	case "hsfrag":
 		rnd := prng(h.Seed)
 		body := make([]byte, h.BodyLen)
@@ -314,7 +339,12 @@ func reportBubble(berr *pbt.BubbleError, r *pbt.R) {
 var boundary = []int{0, 1, 2, 3, 4, 11, 12, 13, 255, 256, 1 << 16, 1<<24 - 1}
 
 func genHostile(t *rapid.T) Hostile {
-	switch rapid.IntRange(0, 9).Draw(t, "hk") {
+	switch rapid.IntRange(0, 10).Draw(t, "hk") {
+	case 10:
+		return Hostile{
+			Kind: "cidrec", Epoch: rapid.SampledFrom([]int{1, 1, 1, 0, 2}).Draw(t, "epoch"), CIDLen: rapid.SampledFrom([]int{0, 1, 4, 8, 20, 21}).Draw(t, "cidlen"),
+			BodyLen: rapid.IntRange(0, 20).Draw(t, "bl"), DeclDl: rapid.SampledFrom([]int{0, 0, 0, 1, -1}).Draw(t, "decl"), Seed: rapid.IntRange(0, 1<<20).Draw(t, "seed"),
+		}
 	case 0, 1:
 		return Hostile{
 			Kind: "record", Type: rapid.SampledFrom([]int{20, 21, 22, 23, 24, 25, 26, 27, 0, 255, 0x2f, 0x3f, 0x20, 0x37}).Draw(t, "type"),
@@ -378,6 +408,28 @@ func enumInj(tier string, yield func(InjCase) bool) {
 					if !yield(InjCase{Variant: v, Target: target, TrigBy: from, K: k, Burst: burst}) {
 						return
 					}
+				}
+			}
+		}
+	}
+}
+
+// grid 2: endpoints with connection IDs of 4, 8 and 20 bytes receive well-formed tls12_cid records
+// with every short body length (around the explicit-nonce / tag / MAC boundaries) in epoch 1
+func enumInjCID(_ string, yield func(InjCase) bool) {
+	for _, v := range []string{"v12-cid", "v12-cid8", "v12-cid20-ccm"} {
+		for _, target := range []string{"C", "S"} {
+			for _, k := range []int{2, 4, 6, 9} {
+				var burst []Hostile
+				for bl := 0; bl <= 26; bl++ {
+					burst = append(burst, Hostile{Kind: "cidrec", Epoch: 1, CIDLen: variantCID[v], BodyLen: bl, Seed: bl})
+				}
+				from := "C"
+				if target == "C" {
+					from = "S"
+				}
+				if !yield(InjCase{Variant: v, Target: target, TrigBy: from, K: k, Burst: burst}) {
+					return
 				}
 			}
 		}
@@ -710,6 +762,18 @@ func runFlood(c FloodCase, r *pbt.R) {
 					d = legacyRecord(20, 1, uint64(1)<<40+uint64(i), []byte{0x01}, 0) //nolint:gosec
 				case "future-epoch-small":
 					d = legacyRecord(23, next, uint64(i), bytes.Repeat([]byte{0xe3}, 48), 0) //nolint:gosec
+				case "fragment-regrow":
+					// wave 1 parks one byte in each of 900 (message_seq, offset) slots, wave 2 sends the
+					// same slots again with 8000 bytes each: the buffer's byte budget must still hold
+					slot := i % 900
+					seqNo := 300 + slot/30
+					hs := []byte{11, 0, 0xff, 0xff, byte(seqNo >> 8), byte(seqNo), 0, byte((slot % 30) >> 8), byte(slot % 30), 0, 0, 1}
+					body := []byte{0xab}
+					if i >= 900 {
+						hs[9], hs[10], hs[11] = 0, 0x1f, 0x40
+						body = bytes.Repeat([]byte{0xab}, 8000)
+					}
+					d = legacyRecord(22, 0, uint64(i), append(hs, body...), 0) //nolint:gosec
 				case "far-future-fragments":
 					hs := []byte{11, 0, 0x40, 0, byte((100 + i) >> 8), byte(100 + i), 0, 0, byte(i % 200), 0, 3, 0x84}
 					d = legacyRecord(22, 0, uint64(i), append(hs, bytes.Repeat([]byte{0xcc}, 900)...), 0) //nolint:gosec
@@ -749,7 +813,8 @@ func runFlood(c FloodCase, r *pbt.R) {
 		growth := int64(after.HeapAlloc) - int64(before.HeapAlloc) //nolint:gosec
 		// documented limits: 2 MB reassembly + 100 queued records x 8 KiB receive buffer, plus slack for
 		// the two connections' own state
-		bound := int64(2_000_000 + 100*8192 + 6<<20)
+		bound := int64(2_000_000 + 100*8192 + 5<<19)
+		r.Classf("heap-growth<=%dMB", growth/(1<<20)+1)
 		if growth > bound {
 			r.Failf("C08|memory-beyond-limits|"+c.Kind, "heap grew by %d bytes across a flood of %d %s datagrams (bound %d)", growth, c.N, c.Kind, bound)
 
@@ -781,7 +846,7 @@ func enumFlood(tier string, yield func(FloodCase) bool) {
 		n = 10000
 	}
 	for _, v := range []string{"v12", "v13"} {
-		for _, k := range []string{"future-epoch", "future-epoch-small", "future-epoch-hs", "future-epoch-ccs", "far-future-fragments", "big-fragments", "garbage"} {
+		for _, k := range []string{"future-epoch", "future-epoch-small", "future-epoch-hs", "future-epoch-ccs", "far-future-fragments", "fragment-regrow", "big-fragments", "garbage"} {
 			for _, during := range []bool{true, false} {
 				if !yield(FloodCase{Variant: v, Kind: k, N: n, During: during}) {
 					return
@@ -810,6 +875,10 @@ func init() {
 	pbt.Register(pbt.Prop[InjCase]{
 		Name: "injection-grid", Enum: enumInj, Exhaustive: true, Run: runInj, Crashy: true,
 		Rule: "GRID (variant x target x trigger k=0..5 x 13 message types x body lengths 0..4, incl. zero-length messages with non-zero offsets): same oracle",
+	})
+	pbt.Register(pbt.Prop[InjCase]{
+		Name: "injection-grid-cid", Enum: enumInjCID, Exhaustive: true, Run: runInj, Crashy: true,
+		Rule: "GRID (connection-ID variants with 4, 8, 20-byte IDs x target x 4 trigger points x tls12_cid records of every body length 0..26 in epoch 1): same oracle",
 	})
 	pbt.Register(pbt.Prop[AuthCase]{
 		Name: "authenticated-malformed", Quick: 2500, Thorough: 60000, Gen: genAuth, Run: runAuth, Crashy: true,
